@@ -126,6 +126,7 @@ def main():
                     disagreements.append({"what": rec["what"], "model": mt[:120], "impl": it[:120], "capture": cap.hex(), "keylog": s.keylog, "args": args})
     if m:
         ck.cov["oracle_queries"] = m.queries
+        ck.cov["model_runs_skipped"] = m.skipped
         m.close()
     impl.cleanup()
     ck.cov["traces_validated_against_impl"] = hist["model_runs"]
